@@ -29,22 +29,33 @@ TRUSTED = [
 ]
 CLAIM = {
     "text": "Coq theorems over optics as syntax (Field | Join | BiMap | Getter | Setter) interpreted on byte arenas: Join of two lawful "
-            "optics obeys GetPut/PutGet/PutPut and changes nothing outside the outer focus, inside it nothing outside the inner "
-            "focus; BiMap under g.f = id and f.g = id is lawful; Getter never writes; Setter writes exactly the converted value; "
-            "per-arity theorems (N=2..9) that the regenerated shapeN.Put is the component puts in the code's order, shapeN.Get the "
-            "tuple of component gets, ForShapeN = ForProductN; a map lens touches only its key; Iso.Forward then Inverse restores the "
-            "source focus; Morphism round trip under the stated hypothesis, which is shown necessary. Model and oracle are run "
-            "against the real code on generated shapes. See the evidence for theorems that are proved only in part.",
+            "optics obeys GetPut/PutGet/PutPut and changes nothing outside the outer focus and, with a positional outer optic (a field "
+            "lens or a Join chain of field lenses), nothing outside the inner focus (C04_join_frame, C04_chain_framed); BiMap under "
+            "g.f = id and f.g = id is lawful; Getter never writes; Setter writes exactly the converted value; per-arity theorems "
+            "(N=2..9) that the regenerated shapeN.Put is the component puts in the code's order, shapeN.Get the tuple of component gets, "
+            "ForShapeN = ForProductN, and that with focused components on pairwise disjoint foci shapeN.Get after shapeN.Put returns "
+            "the arguments and no byte outside the foci changes (C04_shapeN_nfold, from the generic C04_puts_nfold); a map lens touches "
+            "only its key; Iso.Forward then Inverse restores the source focus; Morphism round trip for ANY list of isos (nil entries "
+            "skipped, entries repeated, source foci overlapping) when two entries are the same iso or have disjoint target foci "
+            "(C04_morphism_roundtrip), a hypothesis shown necessary by a witness; under the same hypothesis the way back into another "
+            "source structure copies exactly the source foci (C04_morphism_transport). Model and oracle are run against the real code "
+            "on generated shapes.",
     "design_ref": "DESIGN.md 3/C04",
     "note": "Trusted: Coq kernel + vm_compute, tools/go2coq, conversions as byte functions. Map lenses are modelled on association "
-            "lists and are not composable with the byte optics in the model. PARTIAL against DESIGN 3/C04: (1) join_frame is proved "
-            "only for the OUTER focus (C04_join_frame_partial: nothing outside the outer focus changes); that inside it only the "
-            "inner focus changes is checked by the oracle, not proved; (2) the N-fold consequence of shapeN.Put/Get for pairwise "
-            "disjoint foci is not stated as a theorem (proved: per arity, Put = the component puts last-first, Get = the component "
-            "gets); (3) morphism_roundtrip is proved for one iso with any nil entries (C04_morphism_roundtrip_partial) plus "
-            "C04_iso_roundtrip / C04_iso_transport and the necessity witness, not for lists of several different isos.",
-    "technique": "Coq proof by induction on optic syntax / iso lists + translator-regenerated per-arity definitions + differential "
-                 "run of model and oracle on generated Go struct shapes",
+            "lists and are not composable with the byte optics in the model. Nothing of DESIGN 3/C04 is left partial. Hypotheses that "
+            "the full theorems carry, stated in Properties/C04.v: (1) C04_join_frame needs the OUTER optic positional ('window': "
+            "reads/writes exactly n bytes at a fixed offset - field lenses and Joins of them at any depth); for an outer optic that "
+            "converts its value the inner focus has no position in the arena and only C04_join_frame_outer (nothing outside the outer "
+            "focus changes) is claimed - witness C04_join_frame_needs_positional; (2) C04_shapeN_nfold / C04_puts_nfold need each component 'focused' (lawful, framed by its "
+            "focus, Get reading its focus only - proved for field lenses, Join chains, Join over a window, BiMap) and the foci pairwise "
+            "disjoint; (3) C04_morphism_roundtrip needs every entry to have a lawful source optic and a focused target optic, and two "
+            "entries to be the same iso or to have disjoint TARGET foci - no hypothesis on source foci is needed; the target hypothesis "
+            "is necessary (C04_morphism_needs_disjoint_targets with C04_witness_entries_ok / C04_witness_targets_overlap). "
+            "C04_morphism_transport (beyond DESIGN) additionally needs the source optics focused and 'transports' (putting the value "
+            "read from one arena into another copies the focus bytes - proved for field lenses, Join chains, BiMap, Join over a "
+            "window); that extra hypothesis is sufficient, it is not claimed necessary.",
+    "technique": "Coq proof by induction on optic syntax / component lists / iso lists + translator-regenerated per-arity definitions + "
+                 "differential run of model and oracle on generated Go struct shapes",
 }
 ASSUMPTIONS = [
     "conversion functions are total and pure; same-representation conversions (BiMapS/B/I/F between types with one underlying type) "
